@@ -18,7 +18,7 @@ from ..util import result, rng_for, viol
 
 ID = "C19"
 RULE = (
-    "exhaustive: every loss history over the ordered alphabet {1,2,3} up to length 7 (thorough; 5 quick), with and "
+    "exhaustive: every loss history over the ordered alphabet {1,2,3} up to length 8 (thorough; 5 quick), with and "
     "without the initial None call the training loop makes, x patience 0..3 x min_delta {0,0.5} x monitored {train,val} "
     "x representation {float, numpy.float32, numpy.float64, 0-d jax array}; EpochStop for epochs 0..5; real ml.train "
     "runs (TrainLoss, ValLoss, EpochStop) on a tiny model with non-improving losses. A case = one configuration with all "
@@ -37,7 +37,7 @@ WORKERS = {"quick": 8, "thorough": 16}
 TIMEOUT = {"quick": 900, "thorough": 3600}
 
 REPS = {"quick": ["float", "jax", "np32"], "thorough": ["float", "np32", "np64", "jax"]}
-MAXLEN = {"quick": 5, "thorough": 7}
+MAXLEN = {"quick": 5, "thorough": 8}
 
 
 def cases(tier, seed):
